@@ -1375,11 +1375,12 @@ RCP<const Set> Intersection::set_intersection(const RCP<const Set> &o) const
 
 RCP<const Set> Intersection::set_complement(const RCP<const Set> &o) const
 {
+    // o \ (A n B) = (o \ A) u (o \ B)
     set_set container;
     for (auto &a : container_) {
         container.insert(a->set_complement(o));
     }
-    return SymEngine::set_intersection(container);
+    return SymEngine::set_union(container);
 }
 
 RCP<const Boolean> Intersection::contains(const RCP<const Basic> &o) const
